@@ -433,7 +433,7 @@ theorem mem_dedupFold {α : Type} [BEq α] [LawfulBEq α] (l acc : List α) (x :
         · exact Or.inl (h ▸ hy)
         · exact Or.inr h
     · rw [if_neg hc]
-      simp only [List.mem_append, List.mem_singleton, List.mem_cons, List.not_mem_nil, or_false]
+      simp only [List.mem_append, List.mem_cons, List.not_mem_nil, or_false]
       constructor
       · rintro ((h | h) | h)
         · exact Or.inl h
@@ -705,5 +705,113 @@ theorem run_lockWrite_subset {P : Script} {req : Request} {store : Store} {r : R
   rcases stmtSources_origin env s a has with hl | hv
   · exact Or.inr (Or.inl (List.mem_flatMap.mpr ⟨s, hs, hl⟩))
   · exact Or.inr (Or.inr (isVarAcct_varAccts hp hv))
+
+/-! ### which balances a run reads: sources of sends (write-locked) and targets of `save` (read-locked) -/
+
+/-- the accounts `save … from` names in one statement -/
+def stmtSaves (env : VEnv) : Stmt → List Acct
+  | .saveMon _ acc => (match evalAcct env acc with | .ok a => [a] | .error _ => [])
+  | .saveAll _ acc => (match evalAcct env acc with | .ok a => [a] | .error _ => [])
+  | _ => []
+
+theorem neededOf_origin (env : VEnv) (s : Stmt) :
+    ∀ k ∈ neededOf env s, k.1 ∈ stmtSources env s ∨ k.1 ∈ stmtSaves env s := by
+  intro k hk
+  cases s with
+  | send amt src d =>
+    left
+    cases amt with
+    | mon e =>
+      simp only [neededOf] at hk
+      split at hk
+      · obtain ⟨x, hx, rfl⟩ := List.mem_map.mp hk; exact hx
+      · cases hk
+    | all ae =>
+      simp only [neededOf] at hk
+      split at hk
+      · obtain ⟨x, hx, rfl⟩ := List.mem_map.mp hk; exact hx
+      · cases hk
+  | saveMon e acc =>
+    right
+    simp only [neededOf] at hk
+    split at hk
+    · rename_i s0 a0 _ ha
+      simp only [List.mem_singleton] at hk
+      subst hk
+      simp [stmtSaves, ha]
+    · cases hk
+  | saveAll ae acc =>
+    right
+    simp only [neededOf] at hk
+    split at hk
+    · rename_i s0 a0 _ ha
+      simp only [List.mem_singleton] at hk
+      subst hk
+      simp [stmtSaves, ha]
+    · cases hk
+  | setTxMeta _ _ => simp [neededOf] at hk
+  | setAccountMeta _ _ _ => simp [neededOf] at hk
+  | print _ => simp [neededOf] at hk
+  | fail => simp [neededOf] at hk
+
+theorem stmtSaves_origin (env : VEnv) (s : Stmt) : ∀ a ∈ stmtSaves env s, a ∈ stmtLits s ∨ IsVarAcct env a := by
+  intro a ha
+  cases s with
+  | saveMon e acc =>
+    simp only [stmtSaves] at ha
+    cases he : evalAcct env acc with
+    | error er => simp [he] at ha
+    | ok x =>
+      simp only [he, List.mem_singleton] at ha
+      subst ha
+      rcases evalAcct_origin he with h | h
+      · left; simp only [stmtLits, List.mem_append]; exact Or.inr h
+      · exact Or.inr h
+  | saveAll ae acc =>
+    simp only [stmtSaves] at ha
+    cases he : evalAcct env acc with
+    | error er => simp [he] at ha
+    | ok x =>
+      simp only [he, List.mem_singleton] at ha
+      subst ha
+      rcases evalAcct_origin he with h | h
+      · left; simp only [stmtLits, List.mem_append]; exact Or.inr h
+      · exact Or.inr h
+  | _ => simp [stmtSaves] at ha
+
+theorem mem_finalBal {P : Script} {r : Result} {env : VEnv}
+    (hfb : r.finalBal.map (·.1) = run.dedupPairs (needed env P.stmts)) {k : (Acct × Asset) × Int} (hk : k ∈ r.finalBal) :
+    k.1 ∈ needed env P.stmts := by
+  have : k.1 ∈ r.finalBal.map (·.1) := List.mem_map.mpr ⟨k, hk, rfl⟩
+  rw [hfb] at this
+  unfold run.dedupPairs at this
+  rw [mem_dedupFold] at this
+  rcases this with h | h
+  · cases h
+  · exact h
+
+/-- **every balance a run reads**: the account is `world`, or write-locked (a source of a send), or the target of a
+`save` statement, which is read-locked (its balance cannot reach a posting unless the account is also a source —
+and then it is write-locked) -/
+theorem run_balances_locked {P : Script} {req : Request} {store : Store} {r : Result} (h : run P req store = .ok r) :
+    ∀ k ∈ r.finalBal, k.1.1 = "world" ∨ k.1.1 ∈ r.lockWrite ∨
+      (k.1.1 ∈ r.lockRead ∧ ∃ env, prepare P req store = .ok env ∧ k.1.1 ∈ P.stmts.flatMap (stmtSaves env)) := by
+  obtain ⟨env, F, hp, _, _, hR, hW, hfb⟩ := run_inv_locks h
+  intro k hk
+  have hn := mem_finalBal hfb hk
+  unfold needed at hn
+  obtain ⟨s, hs, hks⟩ := List.mem_flatMap.mp hn
+  by_cases hw : k.1.1 = "world"
+  · exact Or.inl hw
+  · right
+    rcases neededOf_origin env s k.1 hks with hsrc | hsv
+    · left; rw [hW, mem_lockWrite]; exact ⟨List.mem_flatMap.mpr ⟨s, hs, hsrc⟩, hw⟩
+    · right
+      refine ⟨?_, env, hp, List.mem_flatMap.mpr ⟨s, hs, hsv⟩⟩
+      rw [hR, mem_lockRead]
+      refine ⟨?_, hw⟩
+      rcases stmtSaves_origin env s _ hsv with hl | hv
+      · exact Or.inr (Or.inl (List.mem_flatMap.mpr ⟨s, hs, hl⟩))
+      · exact Or.inr (Or.inr (isVarAcct_varAccts hp hv))
 
 end Num
